@@ -2,7 +2,9 @@ pub mod c01;
 pub mod c01_carriers;
 pub mod c03;
 pub mod c11;
+pub mod c13;
 pub mod c15;
+pub mod c18;
 pub mod c19;
 
 use crate::runner::{Report, Tier};
@@ -22,7 +24,9 @@ pub fn registry() -> Vec<(&'static str, CheckFn)> {
         ("C01", c01::run as CheckFn),
         ("C03", c03::run as CheckFn),
         ("C11", c11::run as CheckFn),
+        ("C13", c13::run as CheckFn),
         ("C15", c15::run as CheckFn),
+        ("C18", c18::run as CheckFn),
         ("C19", c19::run as CheckFn),
     ]
 }
